@@ -5,7 +5,8 @@ Cross-check of extraction for C26: recomputes, INSIDE Coq with vm_compute, the n
 extracted OCaml oracle computed for `max_cases` cases of the same record file (Sec/Authz.v:
 authorize / write_authorize / spec_allowed / spec_write_allowed per call, the pinned handler flags,
 list_stores / list_stores_sqlite per ListStores variant with a checksum of the returned ids,
-authorize_create_store / spec_system_allowed, spec_allowed per probe) on the grant table of the
+authorize_create_store / spec_system_allowed, spec_allowed per probe, list_stores_from per forged
+continuation token, authorize_fault / write_authorize_fault / fault_fires per injected fault) on the grant table of the
 record, and compares them with the oracle's dump.
 Prints `COQREPLAY ok <n> ...` or the mismatches; exit 1 on a mismatch."""
 import os, re, subprocess, sys
@@ -40,7 +41,7 @@ def spread(xs, k):
     if k <= 0 or not xs: return []
     if len(xs) <= k: return list(xs)
     return [xs[(i * len(xs)) // k] for i in range(k)]
-share = {1: 0.25, 3: 0.25, 2: 0.17, 4: 0.17, 5: 0.16}
+share = {1: 0.2, 3: 0.2, 2: 0.15, 4: 0.15, 5: 0.1, 6: 0.2}
 chosen = set()
 for k, frac in share.items():
     chosen |= set(spread(by_kind.get(k, []), max(1, int(round(maxc * frac)))))
@@ -103,7 +104,9 @@ for cid, vals in cases:
     elif kind in (2, 4):
         lists, backend = vals[6], vals[8]
         fn = "list_stores_sqlite" if backend[1] == b"sqlite" else "list_stores"
-        rows = ["lsn (%s g la cl %s all)" % (fn, B(l[0])) for l in lists]
+        sq = "true" if backend[1] == b"sqlite" else "false"
+        rows = [("lsn (%s g la cl %s all)" % (fn, B(l[0]))) if l[4] < 0 else
+                ("lsn (list_stores_from %s g la cl %s all %d%%nat)" % (sq, B(l[0]), l[4])) for l in lists]
         cm = B(("b", b"CreateStore"))
         rows.append("[bN (is_allow (authorize_create_store g cl)); match method_of_bytes %s with Some m => bN (spec_system_allowed g cl m) | None => 9 end]" % cm)
         body.append("Eval vm_compute in (%d, %s [%d] ++ %s)." % (tag, pre, kind, " ++ ".join(rows)))
@@ -119,6 +122,21 @@ for cid, vals in cases:
                     rows.append("[match method_of_bytes %s with Some m => bN (spec_allowed g cl m %s []) | None => 2 end]" % (B(meth), B(a[0])))
                 ncalls += 1
         body.append("Eval vm_compute in (%d, %s [5; bN (handler_model_read_before_authz_b %s)] ++ %s)." % (tag, pre, B(base(handler)), " ++ ".join(rows) or "[]"))
+    elif kind == 6:
+        rows = []
+        for c in vals[6]:
+            handler, meth, store, lookups, k, frm = c[0], c[1], c[2], c[3], c[4], c[5]
+            fb = "true" if frm else "false"
+            if handler[1] == b"Write":
+                ls = lst([["LTypeNotFound", "LNoRelation"][l[0]] if l[0] < 2 else "(LModule %s)" % B(l[1]) for l in lookups])
+                rows.append("(let ls := %s in [bN (is_allow (write_authorize_fault g %d %s cl %s ls)); bN (is_allow (write_authorize g cl %s ls)); "
+                            "match extract_modules ls [] with MErr => 0 | MMods ms => bN (fault_fires g %d cl M_Write %s ms) end])"
+                            % (ls, k, fb, B(store), B(store), k, B(store)))
+            else:
+                rows.append("(match method_of_bytes %s with Some m => [bN (is_allow (authorize_fault g %d %s cl m %s [])); bN (is_allow (authorize g cl m %s [])); bN (fault_fires g %d cl m %s [])] | None => [9; 9; 9] end)"
+                            % (B(meth), k, fb, B(store), B(store), k, B(store)))
+            ncalls += 1
+        body.append("Eval vm_compute in (%d, %s [6] ++ %s)." % (tag, pre, " ++ ".join(rows) or "[]"))
     else:
         continue
     ids.append(cid)
@@ -141,6 +159,6 @@ for cid in ids:
     if g != w:
         bad += 1
         print("COQREPLAY mismatch case %s: coq=%s ocaml=%s" % (cid, (g or [])[:40], w[:40]))
-print("COQREPLAY %s %d cases (%s; %d decisions): authorize / write_authorize / spec_allowed per call, handler flags, list_stores(+sqlite) id checksums, create-store and probe decisions recomputed by vm_compute on the record's grant table"
+print("COQREPLAY %s %d cases (%s; %d decisions): authorize / write_authorize / spec_allowed per call, handler flags, list_stores(+sqlite) id checksums, list_stores_from on forged tokens, create-store, probe and fault decisions (authorize_fault / write_authorize_fault / fault_fires) recomputed by vm_compute on the record's grant table"
       % ("ok" if not bad else "MISMATCH", len(ids), ", ".join("kind %d: %d" % (k, v) for k, v in sorted(kinds.items())), ncalls))
 sys.exit(1 if bad else 0)
